@@ -73,16 +73,18 @@ def _work(job):
   """Portfolio: z3 with a short budget, then cvc5, then z3 with the full budget (most obligations need < 1 s of z3;
   the non-linear ones that z3 finds hard are typically immediate for cvc5 and vice versa)."""
   idx, smt, timeout_ms, both = job
-  short = min(3000, timeout_ms)
+  short = min(6000, timeout_ms)
   r = _z3_solve(smt, short)
   r["idx"] = idx
   if r["status"] in ("unknown", "error") or both:
-    r2 = _cvc5_solve(smt, timeout_ms)
+    r2 = _cvc5_solve(smt, timeout_ms if both else min(10000, timeout_ms))
     if r2["status"] not in ("sat", "unsat") and r["status"] in ("unknown", "error") and timeout_ms > short:
       t_prev = r.get("time", 0.0)
       r = _z3_solve(smt, timeout_ms)
       r["idx"] = idx
       r["time"] = r.get("time", 0.0) + t_prev
+      if r["status"] in ("unknown", "error") and not both:
+        r2 = _cvc5_solve(smt, timeout_ms)
     r["cvc5"] = r2
     if r["status"] in ("unknown", "error") and r2["status"] == "unsat":
       r.update(status="unsat", backend="cvc5", time=r["time"] + r2["time"])
